@@ -1,6 +1,7 @@
 import RdsProps.Instantiated
 import RdsProofs.TableC20
 import RdsProofs.C20Proofs
+import RdsProofs.AuditC03C20
 /-!
 # Property C20 — all four build configurations decode identically (modulo charset width)
 
@@ -24,6 +25,9 @@ of the model on every run):
 -- THEOREM: RDS.C20_full_false
 -- THEOREM: RDS.C20_ascii
 -- THEOREM: RDS.C20_ascii_step
+-- THEOREM: RDS.C20_ascii'
+-- THEOREM: RDS.C20_ascii_step'
+-- THEOREM: RDS.ac3_C20_sharp
 -- THEOREM: RDS.C20_nontext
 -- THEOREM: RDS.C20_nontext_step
 -- THEOREM: RDS.C20_ascii_generated
